@@ -136,7 +136,9 @@ def well_formed(e, rules=None):
         return False
     # Backtrack moves the position backwards: under any loop it can undo the progress of the iteration
     if k == 'rep':
-        return not nullable(e[1], rules) and not has_bt(e)
+        # an element that can match the empty string is fine under an UPPER bound (the repetition runs to the bound);
+        # without one both the specification and the generated code diverge
+        return (not nullable(e[1], rules) or e[3] is not None) and not has_bt(e)
     if k == 'skip':
         # an item that matches without consuming has skipped nothing (Skip goes on with the next item): allowed
         return not has_bt(e)
